@@ -182,6 +182,56 @@ theorem batch_any_order_good (S : Scripts) (rh : HookFn) (hrh : HookOK rh) (w : 
     destructed user 1 and an accept took a new record -/
 example : ∃ evs : List IoEv, evs.length = 3 ∧ evs.Perm [.hup 1, .accept 3, .eof 2] := ⟨[.eof 2, .accept 3, .hup 1], rfl, by decide⟩
 
+/-! ## the rotating start slot of get_user_command() -/
+
+/-- **the start slot moves past the user that is served** - also when more of his commands are buffered, so a user whose
+    commands keep failing (the longjmp to backend() restarts the iteration) cannot keep the search at his own slot: the
+    next iteration starts BEHIND him (the seeded change C09-5 broke exactly this; the oracle's `isolation` clause is the
+    observable consequence).  `i` is the slot the served record sits in. -/
+theorem cursor_moves_past_served_user : ∀ (n : Nat) (w : W) (c : Conn), (scanUsers n w).2 = some c →
+    ∃ l i, w.users = some l ∧ l[i]? = some (some c) ∧
+      (scanUsers n w).1.nextUser = (if i = 0 then l.length - 1 else i - 1) := by
+  intro n
+  induction n with
+  | zero => intro w c h; simp [scanUsers] at h
+  | succ n ih =>
+    intro w c h
+    unfold scanUsers at h ⊢
+    cases hu : w.users with
+    | none => rw [hu] at h; simp at h
+    | some l =>
+      rw [hu] at h
+      simp only [] at h ⊢
+      cases hs : l[w.nextUser]? with
+      | none => rw [hs] at h; simp [crash] at h
+      | some s =>
+        rw [hs] at h
+        simp only [] at h ⊢
+        cases s with
+        | none =>
+          simp only [] at h ⊢
+          obtain ⟨l', i, hl', hi, hn⟩ := ih _ c h
+          have : l' = l := by
+            have e : ({ w with nextUser := if w.nextUser = 0 then l.length - 1 else w.nextUser - 1 } : W).users = some l := hu
+            rw [e] at hl'; exact (Option.some.inj hl').symm
+          rw [this] at hi hn
+          exact ⟨l, i, rfl, hi, hn⟩
+        | some d =>
+          simp only [] at h ⊢
+          by_cases hc : (!d.cmds.isEmpty && d.turn) = true
+          · rw [if_pos hc] at h ⊢
+            simp only [Option.some.injEq] at h
+            refine ⟨l, w.nextUser, rfl, by rw [hs, h], ?_⟩
+            show (if (mapConn w d.id _).nextUser = 0 then l.length - 1 else (mapConn w d.id _).nextUser - 1) = _
+            rfl
+          · rw [if_neg hc] at h ⊢
+            obtain ⟨l', i, hl', hi, hn⟩ := ih _ c h
+            have : l' = l := by
+              have e : ({ w with nextUser := if w.nextUser = 0 then l.length - 1 else w.nextUser - 1 } : W).users = some l := hu
+              rw [e] at hl'; exact (Option.some.inj hl').symm
+            rw [this] at hi hn
+            exact ⟨l, i, rfl, hi, hn⟩
+
 /-! ## snoop on the input path -/
 
 /-- **the whole input path of a snooped user** - CR LF echo with the snooper's receive_snoop() after every line, the
